@@ -2,6 +2,7 @@ import Usual.Common
 import Usual.C10.Alloc
 import Usual.C10.Tree
 import Usual.C10.Structs
+import Usual.C10.CxPool
 /-!
 Model driver for C10 (allocation-fault models; line protocol, see FRAMEWORK.md).
 
@@ -35,6 +36,10 @@ structure DS where
   ctSubs : List (Nat × Id) := []                   -- sub-tree slot ↦ struct block
   hm : Option HM := none
   dg : Option Id := none
+  pool : Option Usual.C09.Pool := none
+  poolSlots : List (Nat × Nat × Nat) := []         -- slot ↦ pointer, length
+  mp : Usual.C09.MemPool := { segs := [] }
+  mpSlots : List (Nat × Nat) := []                 -- slot ↦ length
 
 def commaSep (l : List String) : String := ",".intercalate l
 
@@ -71,6 +76,13 @@ def sbDump (b : SB) : String := s!"total={b.total} free={b.free}"
 
 def ctDump (t : CT) : String :=
   s!"items={t.items.length} subs=[" ++ commaSep (t.subs.map fun p => toString p.2.length) ++ "]"
+
+def slotsDump (l : List (Nat × Nat)) : String :=
+  "[" ++ commaSep ((l.mergeSort (fun a b => a.1 ≤ b.1)).map fun p => s!"{p.1}:{p.2}") ++ "]"
+
+def poolDump (d : DS) : String := slotsDump (d.poolSlots.map fun p => (p.1, p.2.2))
+
+def mpDump (d : DS) : String := s!"segs={d.mp.segs.length} " ++ slotsDump d.mpSlots
 
 /-- compose an output line -/
 def outLine (d0 d1 : DS) (failed : Bool) (ret dump : String) : String :=
@@ -533,6 +545,86 @@ def step (d : DS) (line : String) : DS × String :=
     | some h =>
       let d1 := { d with as := hmFreeA h d.as, hm := none }
       (d1, outLine d d1 false "ok" "")
+  -- ------------------------------------------------- cx pool (model of property C09)
+  | ["pool", "new", ia, al] =>
+    match d.pool, ia.toNat?, al.toNat? with
+    | some _, _, _ => (d, "bad-op")
+    | _, none, _ => (d, "bad-op")
+    | _, _, none => (d, "bad-op")
+    | none, some i, some a =>
+      if i > 1000000 || a > 4096 then (d, "bad-op") else
+      match poolNewA i a d.as with
+      | (none, s1) => let d1 := { d with as := s1 }; (d1, outLine d d1 true "null" "")
+      | (some p, s1) =>
+        let d1 := { d with as := s1, pool := some p, poolSlots := [] }
+        (d1, outLine d d1 false "ok" (poolDump d1))
+  | ["pool", "alloc", slot, ls] =>
+    match slot.toNat?, ls.toNat? with
+    | none, _ => (d, "bad-op")
+    | _, none => (d, "bad-op")
+    | some sl, some len =>
+      if len == 0 || len > 1000000 then (d, "bad-op") else
+      match d.pool with
+      | none => (d, "skip")
+      | some p =>
+        if d.poolSlots.any (·.1 == sl) then (d, "bad-op") else
+        match poolAllocA p len d.as with
+        | (none, s1) => let d1 := { d with as := s1 }; (d1, outLine d d1 true "null" (poolDump d1))
+        | (some r, s1) =>
+          let d1 := { d with as := s1, pool := some r.1, poolSlots := (sl, r.2, len) :: d.poolSlots }
+          (d1, outLine d d1 false "ok" (poolDump d1))
+  | ["pool", "realloc", slot, ls] =>
+    match slot.toNat?, ls.toNat? with
+    | none, _ => (d, "bad-op")
+    | _, none => (d, "bad-op")
+    | some sl, some len =>
+      if len == 0 || len > 1000000 then (d, "bad-op") else
+      match d.pool with
+      | none => (d, "skip")
+      | some p =>
+        match d.poolSlots.find? (·.1 == sl) with
+        | none => (d, "skip")
+        | some (_, ptr, _) =>
+          match poolReallocA p ptr len d.as with
+          | (none, s1) => let d1 := { d with as := s1 }; (d1, outLine d d1 true "null" (poolDump d1))
+          | (some r, s1) =>
+            let slots := d.poolSlots.map fun q => if q.1 == sl then (sl, r.2.1, len) else q
+            let d1 := { d with as := s1, pool := some r.1, poolSlots := slots }
+            (d1, outLine d d1 false "ok" (poolDump d1))
+  | ["pool", "freeb", slot] =>
+    match slot.toNat? with
+    | none => (d, "bad-op")
+    | some sl =>
+      match d.pool with
+      | none => (d, "skip")
+      | some p =>
+        match d.poolSlots.find? (·.1 == sl) with
+        | none => (d, "skip")
+        | some (_, ptr, _) =>
+          let d1 := { d with pool := some (Usual.C09.free p ptr), poolSlots := d.poolSlots.filter (·.1 != sl) }
+          (d1, outLine d d1 false "ok" (poolDump d1))
+  | ["pool", "free"] =>
+    match d.pool with
+    | none => (d, "skip")
+    | some p =>
+      let d1 := { d with as := poolDestroyA p d.as, pool := none, poolSlots := [] }
+      (d1, outLine d d1 false "ok" "")
+  -- ------------------------------------------------- mempool (model of property C09)
+  | ["mp", "alloc", slot, ls] =>
+    match slot.toNat?, ls.toNat? with
+    | none, _ => (d, "bad-op")
+    | _, none => (d, "bad-op")
+    | some sl, some len =>
+      if len == 0 || len > 1000000 then (d, "bad-op") else
+      if d.mpSlots.any (·.1 == sl) then (d, "bad-op") else
+      match mpAllocA d.mp len d.as with
+      | (none, s1) => let d1 := { d with as := s1 }; (d1, outLine d d1 true "null" (mpDump d1))
+      | (some r, s1) =>
+        let d1 := { d with as := s1, mp := r.1, mpSlots := (sl, len) :: d.mpSlots }
+        (d1, outLine d d1 false "ok" (mpDump d1))
+  | ["mp", "free"] =>
+    let d1 := { d with as := mpDestroyA d.mp d.as, mp := { segs := [] }, mpSlots := [] }
+    (d1, outLine d d1 false "ok" (mpDump d1))
   | _ => (d, "bad-op")
 
 def main : IO Unit := runDriver ({} : DS) step
